@@ -696,20 +696,34 @@ REVS = ["2018-01-01", "2019-01-01", "2020-01-01"]
 
 
 def gen_revfam(rnd):
+    """-> (texts, flat texts, expect): [flat] = the same set with the shared submodules written into every revision"""
     revs = REVS[rnd.choice([0, 1]):]
     leg_of = rnd.choice(revs[:-1] + [None])            # the revision that includes the legacy submodule
-    texts, expect = [], dict(users={}, derived={})
+    shared = rnd.random() < 0.6                        # every revision includes fsh (which includes fsh2)
+    shape = rnd.choice(["both", "nested-only"])        # include fsh; include fsh2;  |  include fsh; (fsh2 through fsh)
+    texts, flat, expect = [], [], dict(users={}, derived={}, shared=shared, revs=revs)
+    sh_body = "container sc { leaf sa { type string; } } "
+    sh2_body = "container sd { leaf sb { type string; } } "
     for r in revs:
         y = r[:4]
         older = [x for x in revs if x <= r]
-        body = 'module f { namespace "urn:f"; prefix f; %s%s identity COMMON; identity ONLY%s; ' \
-               'typedef t { type string; units "rev%s"; } grouping g { leaf m%s { type string; } } }' % (
-                   "include fleg; " if leg_of == r else "", "".join("revision %s; " % x for x in reversed(older)), y, y, y)
-        texts.append(("f" + y, body))
+        incl = ("include fleg; " if leg_of == r else "") + \
+               (("include fsh; include fsh2; " if shape == "both" else "include fsh; ") if shared else "")
+        rest = '%s identity COMMON; identity ONLY%s; typedef t { type string; units "rev%s"; } ' \
+               'grouping g { leaf m%s { type string; } } leaf only%s { type string; } ' % (
+                   "".join("revision %s; " % x for x in reversed(older)), y, y, y, y)
+        texts.append(("f" + y, 'module f { namespace "urn:f"; prefix f; %s%s}' % (incl, rest)))
+        flat.append(("f" + y, 'module f { namespace "urn:f"; prefix f; %s%s%s}' % (
+            "include fleg; " if leg_of == r else "", rest, (sh_body + sh2_body) if shared else "")))
         expect["derived"][r] = {"f:COMMON": set(), "f:ONLY" + y: set()}
+    if shared:
+        texts.append(("fsh", "submodule fsh { belongs-to f { prefix f; } include fsh2; %s}" % sh_body))
+        texts.append(("fsh2", "submodule fsh2 { belongs-to f { prefix f; } %s}" % sh2_body))
     if leg_of:
-        texts.append(("fleg", 'submodule fleg { belongs-to f { prefix f; } identity LEGACY { base COMMON; } '
-                              'typedef tl { type int8; units "legacy"; } grouping gl { leaf mleg { type string; } } }'))
+        leg = ('submodule fleg { belongs-to f { prefix f; } identity LEGACY { base COMMON; } '
+               'typedef tl { type int8; units "legacy"; } grouping gl { leaf mleg { type string; } } }')
+        texts.append(("fleg", leg))
+        flat.append(("fleg", leg))
         expect["derived"][leg_of]["f:COMMON"].add("f/fleg:LEGACY")
         expect["derived"][leg_of]["f/fleg:LEGACY"] = set()
     users = [(r, "u" + r[:4]) for r in revs if rnd.random() < 0.85] + [(None, "ub")]
@@ -720,24 +734,51 @@ def gen_revfam(rnd):
         y = r[:4]
         leg = leg_of == r
         st = ['import f { prefix f; %s}' % ("revision-date %s; " % pin if pin else "")]
-        st += ["identity U1 { base f:ONLY%s; }" % y, "identity UC { base f:COMMON; }",
-               "leaf a { type identityref { base f:ONLY%s; } }" % y, "leaf b { type f:t; }", "container k { uses f:g; %s}" % ("uses f:gl; " if leg else "")]
-        expect["derived"][r]["f:ONLY" + y].add(name + ":U1")
+        st += ["identity U1 { base f:ONLY%s; }" % y if pin else "", "identity UC { base f:COMMON; }",
+               "leaf a { type identityref { base f:ONLY%s; } }" % y if pin else "",
+               "leaf b { type f:t; }", "leaf d { type identityref { base f:COMMON; } }",
+               "leaf un { type union { type f:t; type int8; } }",
+               "container k { uses f:g; %s}" % ("uses f:gl; " if leg else "")]
+        if pin:
+            expect["derived"][r]["f:ONLY" + y].add(name + ":U1")
         expect["derived"][r]["f:COMMON"].add(name + ":UC")
-        if leg:
+        if leg and pin:
             st += ["identity U2 { base f:LEGACY; }", "leaf c { type f:tl; }"]
             expect["derived"][r]["f/fleg:LEGACY"].add(name + ":U2")
             expect["derived"][r]["f:COMMON"].add(name + ":U2")
-        texts.append((name, 'module %s { namespace "urn:%s"; prefix %s; %s }' % (name, name, name, " ".join(st))))
-        expect["users"][name] = dict(rev=r, leg=leg)
-    return texts, expect
+        if shared and pin:
+            st += ['augment "/f:sc" { leaf z%s { type string; } }' % name, 'augment "/f:sd" { leaf w%s { type string; } }' % name]
+            expect.setdefault("augs", {}).setdefault(r, []).append(name)
+        t = 'module %s { namespace "urn:%s"; prefix %s; %s }' % (name, name, name, " ".join(x for x in st if x))
+        texts.append((name, t))
+        flat.append((name, t))
+        expect["users"][name] = dict(rev=r, leg=leg and bool(pin), pinned=bool(pin))
+    return texts, flat, expect
 
 
-def revfam_case(texts, order):
-    toks = ["process", "-", ",".join(["L%d" % i for i in range(len(texts))] + ["P"]), str(len(texts))]
-    for i in order:
+def revfam_case(texts, order, stage=None):
+    """stage = set of text names loaded (and processed) first; the rest afterwards, then Process again"""
+    idx = [i for i in order]
+    if stage is None:
+        ops = ["L%d" % i for i in range(len(idx))] + ["P"]
+    else:
+        first = [k for k, i in enumerate(idx) if texts[i][0] in stage]
+        later = [k for k, i in enumerate(idx) if texts[i][0] not in stage]
+        ops = ["L%d" % k for k in first] + ["P"] + ["L%d" % k for k in later] + ["P"]
+    toks = ["process", "-", ",".join(ops), str(len(texts))]
+    for i in idx:
         toks += [sg.hx(texts[i][0] + ".yang"), sg.hx(texts[i][1])]
     return " ".join(toks)
+
+
+def revfam_trees(line):
+    """canonical tree of every module revision of the last run, by (name, revision)"""
+    j = json.loads(line)
+    out = {}
+    for m in j["runs"][-1].get("modules") or []:
+        if not m["sub"]:
+            out["%s@%s" % (m["name"], m.get("rev"))] = _cnode(m["tree"])
+    return out
 
 
 def check_revfam(line, expect):
@@ -750,6 +791,8 @@ def check_revfam(line, expect):
     run = j["runs"][-1]
     if run["errors"]:
         return "Process reports %s" % run["errors"][:2]
+    if run.get("treeviol"):
+        return "tree invariant violated (parent pointers / sharing between the trees of two revisions): %s" % run["treeviol"][:3]
     derived = {}
     for m in run["modules"]:
         if m["name"] == "f":
@@ -765,6 +808,16 @@ def check_revfam(line, expect):
             if got != v:
                 return "derived identities of %s in revision %s: %s, expected %s" % (k, r, sorted(got) if got is not None else None, sorted(v))
     for m in run["modules"]:
+        if m["name"] == "f" and expect["shared"]:
+            kids = {c["name"]: c for c in m["tree"].get("children") or []}
+            for cont, pre in (("sc", "z"), ("sd", "w")):
+                got = sorted(c["name"] for c in (kids.get(cont) or {}).get("children") or [])
+                want = sorted([("sa" if cont == "sc" else "sb")] + [pre + u for u in expect.get("augs", {}).get(m.get("rev"), [])])
+                if got != want:
+                    return "revision %s of f: container %s has %s, expected %s (an augment through a pinned import landed in " \
+                           "another revision, or the submodule's nodes are missing)" % (m.get("rev"), cont, got, want)
+            if sorted(k for k in kids if k.startswith("only")) != ["only" + m["rev"][:4]]:
+                return "revision %s of f has the leaves %s" % (m.get("rev"), sorted(kids))
         u = expect["users"].get(m["name"])
         if not u:
             continue
@@ -774,13 +827,21 @@ def check_revfam(line, expect):
         kids = {c["name"]: c for c in m["tree"].get("children") or []}
         if (kids["b"].get("type") or {}).get("units") != "rev" + y:
             return "%s: leaf b has the typedef of %s, expected rev%s" % (m["name"], (kids["b"].get("type") or {}).get("units"), y)
+        un = ((kids["un"].get("type") or {}).get("union") or [{}])[0]
+        if un.get("units") != "rev" + y:
+            return "%s: the union of leaf un holds the typedef of %s, expected rev%s" % (m["name"], un.get("units"), y)
         got = sorted(c["name"] for c in kids["k"].get("children") or [])
         want = sorted(["m" + y] + (["mleg"] if u["leg"] else []))
         if got != want:
             return "%s: container k has %s, expected %s (grouping of the wrong revision)" % (m["name"], got, want)
-        t = kids["a"].get("type") or {}
-        if t.get("idbase") != "f:ONLY" + y or set(t.get("idvalues") or []) != expect["derived"][u["rev"]]["f:ONLY" + y]:
-            return "%s: identityref a is based on %s with values %s" % (m["name"], t.get("idbase"), t.get("idvalues"))
+        t = kids["d"].get("type") or {}
+        if t.get("idbase") != "f:COMMON" or set(t.get("idvalues") or []) != expect["derived"][u["rev"]]["f:COMMON"]:
+            return "%s: identityref d (base f:COMMON) has the values %s, expected those of revision %s: %s" % (
+                m["name"], sorted(t.get("idvalues") or []), u["rev"], sorted(expect["derived"][u["rev"]]["f:COMMON"]))
+        if u["pinned"]:
+            t = kids["a"].get("type") or {}
+            if t.get("idbase") != "f:ONLY" + y or set(t.get("idvalues") or []) != expect["derived"][u["rev"]]["f:ONLY" + y]:
+                return "%s: identityref a is based on %s with values %s" % (m["name"], t.get("idbase"), t.get("idvalues"))
         if u["leg"] and (kids["c"].get("type") or {}).get("units") != "legacy":
             return "%s: leaf c is not typed by the legacy submodule's typedef" % m["name"]
     return None
@@ -789,27 +850,43 @@ def check_revfam(line, expect):
 def run_revfam(res, tier, rnd, stats):
     lines, exps = [], []
     for _ in range(40 if tier == "quick" else 400):
-        texts, expect = gen_revfam(rnd)
+        texts, flat, expect = gen_revfam(rnd)
         n = len(texts)
-        orders = [list(range(n)), list(reversed(range(n)))] + [rnd.sample(range(n), n) for _ in range(6)]
-        for o in orders:
+        newest = "f" + expect["revs"][-1][:4]
+        for k in range(7):
+            o = list(range(n)) if k == 0 else (list(reversed(range(n))) if k == 1 else rnd.sample(range(n), n))
+            # batch; then the same as a history: everything but the newest revision (and the users pinned to it) first
             lines.append(revfam_case(texts, o))
-            exps.append((expect, [t[0] for t in texts], o))
+            exps.append((expect, [t[0] for t in texts], o, "batch", None))
+            if k < 4:
+                later = {newest} | {u for u, d in expect["users"].items() if d["pinned"] and d["rev"] == expect["revs"][-1]}
+                lines.append(revfam_case(texts, o, stage={t[0] for t in texts} - later))
+                exps.append((expect, [t[0] for t in texts], o, "staged", None))
+            if k < 3 and expect["shared"]:
+                of = rnd.sample(range(len(flat)), len(flat))
+                lines.append(revfam_case(flat, of))
+                exps.append((expect, [t[0] for t in flat], of, "flat", len(lines) - (3 if k < 4 else 2)))
     go = lib.run_go(lines)
     bad = 0
-    for l, g, (e, names, o) in zip(lines, go, exps):
+    for k, (l, g, (e, names, o, mode, ref)) in enumerate(zip(lines, go, exps)):
         why = check_revfam(g, e)
         stats["revision_cases"] += 1
+        stats["revision_" + mode] = stats.get("revision_" + mode, 0) + 1
+        if not why and mode == "flat":
+            d = _first_diff(revfam_trees(go[ref]), revfam_trees(g))
+            if d:
+                why = "the trees of the revisions differ from the same modules written without the shared submodules: " + d
         if why:
             bad += 1
             if bad <= 3:
-                res.violation("a reference through an import is not bound to the revision the import denotes (load order %s): %s"
-                              % ([names[i] for i in o], why[:300]), dict(kind="revisions", case=l, expect=_jsonable(e)))
+                res.violation("a name is not bound to the revision it denotes (%s, load order %s): %s"
+                              % (mode, [names[i] for i in o], why[:300]), dict(kind="revisions", case=l, expect=_jsonable(e)))
     return len(lines)
 
 
 def _jsonable(e):
-    return dict(users=e["users"], derived={r: {k: sorted(v) for k, v in d.items()} for r, d in e["derived"].items()})
+    return dict(users=e["users"], derived={r: {k: sorted(v) for k, v in d.items()} for r, d in e["derived"].items()},
+                shared=e["shared"], revs=e["revs"], augs=e.get("augs", {}))
 
 
 # ------------------------------------------------------------------------------------ run
@@ -976,7 +1053,7 @@ def replay(rep, res):
     if rep.get("kind") == "revisions":
         g = lib.run_go([rep["case"]])[0]
         e = rep["expect"]
-        e = dict(users=e["users"], derived={r: {k: set(v) for k, v in d.items()} for r, d in e["derived"].items()})
+        e = dict(e, derived={r: {k: set(v) for k, v in d.items()} for r, d in e["derived"].items()})
         why = check_revfam(g, e)
         print("impl :", g[:1500])
         print("wrong:", why)
